@@ -25,6 +25,7 @@ import (
 // OCSPAnswer is what the responder double does with one request.
 type OCSPAnswer struct {
 	Drop   bool   // close the connection without answering
+	Cut    bool   // answer 200 with a Content-Length larger than what is sent, then close the connection
 	Status int    // HTTP status (0 = 200)
 	Body   []byte // response body (an OCSP response, or anything)
 }
@@ -77,6 +78,18 @@ func (r *OCSPResponder) handle(w http.ResponseWriter, req *http.Request) {
 	if a.Drop {
 		if hj, ok := w.(http.Hijacker); ok {
 			if c, _, err := hj.Hijack(); err == nil {
+				c.Close()
+				return
+			}
+		}
+		panic(http.ErrAbortHandler)
+	}
+	if a.Cut {
+		if hj, ok := w.(http.Hijacker); ok {
+			if c, bw, err := hj.Hijack(); err == nil {
+				bw.WriteString("HTTP/1.1 200 OK\r\nContent-Type: application/ocsp-response\r\nContent-Length: 1000\r\n\r\n")
+				bw.Write(a.Body)
+				bw.Flush()
 				c.Close()
 				return
 			}
